@@ -649,7 +649,7 @@ func runForwardCase(c FwdCase, info *vkit.Info, cls *classSet) error {
 		}
 		why, witness := staleWhy(h, cached)
 		switch h.Kind {
-		case "uconf", "uterm", "uver", "uover":
+		case "uconf", "uterm", "uver", "uover", "vupcdn", "cupvdn":
 			if why == "" {
 				return fmt.Errorf("harness: fabricated %v is not stale", h)
 			}
